@@ -16,6 +16,9 @@ from urllib.parse import urlsplit
 
 from vmon.gen import docs
 from vmon.instr import engine
+from vmon.props import c13 as _c13
+
+docs.DOCS.setdefault("with_examples", _c13.doc_examples)
 
 ID = "C05"
 LEVEL = "fault_enumeration"
@@ -48,17 +51,28 @@ BASES = [
     ("four", {"phases": ["coverage"], "unique_inputs": True}),
     ("four", {"phases": ["fuzzing"], "max_examples": 3, "modes": ["positive", "negative"]}),
     ("eight", {"phases": ["fuzzing"], "max_examples": 2, "workers": 4}),
+    ("with_examples", {"phases": ["examples"]}),
+    ("with_examples", {"phases": ["examples", "coverage", "fuzzing"], "max_examples": 2}),
+    ("four", {"phases": ["coverage", "fuzzing"], "max_examples": 3}),
+    ("four", {"phases": ["fuzzing"], "max_examples": 3, "modes": ["negative"]}),
 ]
 ALL_CHECKS = ["not_a_server_error", "status_code_conformance", "content_type_conformance", "response_schema_conformance"]
 
 # behaviour name -> (rules, which check it must trip, kind)
 def behaviours(doc_name):
-    target = {"one": "/items", "two_linked": "/users/", "four": "/a", "eight": "/r3"}[doc_name]
+    target = {"one": "/items", "two_linked": "/users/", "four": "/a", "eight": "/r3", "with_examples": "/a"}[doc_name]
     rx = "^" + target
     out = {
         "ok": ([], None),
         "5xx_first": ([{"when": {"method": "GET", "path_regex": rx, "nth": 1}, "then": {"status": 500, "json": {}}}], "not_a_server_error"),
         "5xx_third": ([{"when": {"method": "GET", "path_regex": rx, "nth": 3}, "then": {"status": 503, "json": {}}}], "not_a_server_error"),
+        "5xx_then_503": (
+            [
+                {"when": {"method": "GET", "path_regex": rx, "nth": 1}, "then": {"status": 500, "json": {}}},
+                {"when": {"method": "GET", "path_regex": rx, "from_nth": 1}, "then": {"status": 503, "json": {}}},
+            ],
+            "not_a_server_error",
+        ),
         "5xx_always": ([{"when": {"method": "GET", "path_regex": rx}, "then": {"status": 500, "json": {}}}], "not_a_server_error"),
         "undocumented_status": ([{"when": {"method": "GET", "path_regex": rx, "nth": 2}, "then": {"status": 418, "json": {}}}], "status_code_conformance"),
         "wrong_content_type": ([{"when": {"method": "GET", "path_regex": rx, "nth": 2}, "then": {"status": 200, "body": "<p>x</p>", "content_type": "text/html"}}], "content_type_conformance"),
@@ -198,8 +212,17 @@ def judge(case, result):
             if missing and not stateful_bad:
                 viols.append(("C05/affected-scenario-not-failed", f"operations {sorted(missing)} got offending responses but no FAILURE/ERROR scenario names them"))
         phases_bad = {e["phase"] for e in events if e["type"] == "PhaseFinished" and e["status"] in ("FAILURE", "ERROR")}
-        if bad_scen and not phases_bad:
-            viols.append(("C05/phase-not-failed", "failed scenarios but no failed phase"))
+        for phase in sorted({e["phase"] for e in bad_scen}):
+            if phase not in phases_bad and limit is None:
+                status = [e["status"] for e in events if e["type"] == "PhaseFinished" and e["phase"] == phase]
+                viols.append(("C05/phase-not-failed", f"{phase} has failed/errored scenarios but finished {status}"))
+        # the CLI's bookkeeping (FAILURES section, JUnit) keeps every distinct server error that the recorders hold
+        if result.reported_failures is not None:
+            recorded = {(c["failure"]["operation"], c["failure"]["status_code"]) for _, _, c, _ in failures if c["failure"]["type"] == "ServerError"}
+            reported = {(f["operation"], f["status_code"]) for f in result.reported_failures if f["type"] == "ServerError"}
+            lost = recorded - reported
+            if lost:
+                viols.append(("C05/recorded-failure-missing-from-report", f"server errors {sorted(lost)} are in the recorders but not in the report's failure list {sorted(reported)}"))
     if fired:
         point = fired[0]["point"]
         if exit_code == 0:
